@@ -28,6 +28,10 @@ CHECKS = {
    text="Generated protocol x auth mode x chain depth x transfer program (directions, write sizes 1..50000, read buffer sizes, fragmentation schedule, closer). Both handshakes must complete with equal secrets; every read must return the next bytes of the model queue. The byte-delivery schedule is owned by the proxy; CPU interleaving of the endpoint threads is only sampled.",
    note="Trusted: Python PKI builder (vlib/ref/x509.py) and stream model; entropy scripted, clock frozen. A 60 s command time-out is inconclusive, never a violation.",
    design="4/C08"),
+ "C10": dict(level="fault_enumeration", technique="fault injection by a record-aware man-in-the-middle proxy between two honest library endpoints (generated single-bit and record-level faults over a reproducible transcript; Hypothesis draws the fault coordinates)",
+   text="Single-bit flips at generated (record, byte, bit) coordinates of every handshake/CCS record payload and per-record drop/duplicate/swap/truncate/extend/replay/reflect faults, for 3 protocols x 2 auth modes x 4 entropy streams. Oracle: never both endpoints complete; a stray record that can only arrive after the receiver finished its handshake must be rejected at the next read. The quick tier samples the fault space; it is enumerated only as far as the thorough budget reaches.",
+   note="Trusted: the proxy and the deterministic replay (scripted entropy, frozen clock). Quiescence time-outs can only move a run towards 'not completed'.",
+   design="4/C10"),
 }
 
 NOT_YET = {
